@@ -9,6 +9,7 @@ package vfs
 
 import (
 	"errors"
+	"io"
 	"io/fs"
 	"os"
 	"path/filepath"
@@ -17,13 +18,16 @@ import (
 )
 
 type (
-	LinkError = os.LinkError
+	LinkError    = os.LinkError
 	SyscallError = os.SyscallError
-	FileMode = fs.FileMode
-	FileInfo = fs.FileInfo
-	DirEntry = fs.DirEntry
-	PathError = fs.PathError
-	Signal    = os.Signal
+	FileMode     = fs.FileMode
+	FileInfo     = fs.FileInfo
+	DirEntry     = fs.DirEntry
+	PathError    = fs.PathError
+	Signal       = os.Signal
+	ProcAttr     = os.ProcAttr
+	Process      = os.Process
+	ProcessState = os.ProcessState
 )
 
 const (
@@ -36,9 +40,27 @@ const (
 	O_SYNC   = os.O_SYNC
 	O_TRUNC  = os.O_TRUNC
 
-	ModePerm   = fs.ModePerm
-	ModeDir    = fs.ModeDir
-	ModeAppend = fs.ModeAppend
+	ModePerm       = fs.ModePerm
+	ModeDir        = fs.ModeDir
+	ModeAppend     = fs.ModeAppend
+	ModeExclusive  = fs.ModeExclusive
+	ModeTemporary  = fs.ModeTemporary
+	ModeSymlink    = fs.ModeSymlink
+	ModeDevice     = fs.ModeDevice
+	ModeNamedPipe  = fs.ModeNamedPipe
+	ModeSocket     = fs.ModeSocket
+	ModeSetuid     = fs.ModeSetuid
+	ModeSetgid     = fs.ModeSetgid
+	ModeCharDevice = fs.ModeCharDevice
+	ModeSticky     = fs.ModeSticky
+	ModeIrregular  = fs.ModeIrregular
+	ModeType       = fs.ModeType
+
+	SEEK_SET = os.SEEK_SET
+	SEEK_CUR = os.SEEK_CUR
+	SEEK_END = os.SEEK_END
+
+	PathListSeparator = os.PathListSeparator
 
 	PathSeparator = os.PathSeparator
 	DevNull       = os.DevNull
@@ -50,6 +72,12 @@ var (
 	ErrPermission = fs.ErrPermission
 	ErrInvalid    = fs.ErrInvalid
 	ErrClosed     = fs.ErrClosed
+
+	ErrDeadlineExceeded = os.ErrDeadlineExceeded
+	ErrNoDeadline       = os.ErrNoDeadline
+	ErrProcessDone      = os.ErrProcessDone
+	Interrupt           = os.Interrupt
+	Kill                = os.Kill
 
 	Stdin  = os.Stdin
 	Stdout = os.Stdout
@@ -222,6 +250,46 @@ func (f *File) ReadDir(n int) ([]DirEntry, error) { return f.f.ReadDir(n) }
 
 func (f *File) Readdirnames(n int) ([]string, error) { return f.f.Readdirnames(n) }
 
+func (f *File) Readdir(n int) ([]FileInfo, error)     { return f.f.Readdir(n) }
+func (f *File) Chdir() error                          { return f.f.Chdir() }
+func (f *File) SetDeadline(t time.Time) error         { return f.f.SetDeadline(t) }
+func (f *File) SetReadDeadline(t time.Time) error     { return f.f.SetReadDeadline(t) }
+func (f *File) SetWriteDeadline(t time.Time) error    { return f.f.SetWriteDeadline(t) }
+func (f *File) SyscallConn() (syscall.RawConn, error) { return f.f.SyscallConn() }
+
+func (f *File) Chown(uid, gid int) error {
+	if _, err := gate(Step{Kind: "chown", Path: f.name, Mutating: true}); err != nil {
+		return err
+	}
+	return f.f.Chown(uid, gid)
+}
+
+// ReadFrom and WriteTo go through Write / Read so that every transfer stays a logged step.
+func (f *File) ReadFrom(r io.Reader) (int64, error) {
+	return io.Copy(struct{ io.Writer }{f}, r)
+}
+
+func (f *File) WriteTo(w io.Writer) (int64, error) {
+	return io.Copy(w, struct{ io.Reader }{f})
+}
+
+// NewFile and Pipe hand out wrapped files as well.
+func NewFile(fd uintptr, name string) *File {
+	of := os.NewFile(fd, name)
+	if of == nil {
+		return nil
+	}
+	return &File{f: of, name: name}
+}
+
+func Pipe() (*File, *File, error) {
+	r, w, err := os.Pipe()
+	if err != nil {
+		return nil, nil, err
+	}
+	return &File{f: r, name: "|0"}, &File{f: w, name: "|1"}, nil
+}
+
 func Stat(name string) (FileInfo, error) {
 	if _, err := gate(Step{Kind: "stat", Path: name}); err != nil {
 		return nil, err
@@ -378,19 +446,62 @@ func IsPermission(err error) bool { return os.IsPermission(err) }
 func IsTimeout(err error) bool    { return os.IsTimeout(err) }
 func SameFile(a, b FileInfo) bool { return os.SameFile(a, b) }
 
-func Getenv(k string) string             { return os.Getenv(k) }
-func LookupEnv(k string) (string, bool)  { return os.LookupEnv(k) }
-func TempDir() string                    { return os.TempDir() }
-func Getpid() int                        { return os.Getpid() }
-func Getuid() int                        { return os.Getuid() }
-func Hostname() (string, error)          { return os.Hostname() }
-func Getwd() (string, error)             { return os.Getwd() }
-func UserHomeDir() (string, error)       { return os.UserHomeDir() }
-func UserCacheDir() (string, error)      { return os.UserCacheDir() }
-func Exit(code int)                      { os.Exit(code) }
-func Executable() (string, error)        { return os.Executable() }
-func ExpandEnv(s string) string          { return os.ExpandEnv(s) }
-func DirFS(dir string) fs.FS             { return os.DirFS(dir) }
+func Getenv(k string) string            { return os.Getenv(k) }
+func LookupEnv(k string) (string, bool) { return os.LookupEnv(k) }
+func TempDir() string                   { return os.TempDir() }
+func Getpid() int                       { return os.Getpid() }
+func Getuid() int                       { return os.Getuid() }
+func Hostname() (string, error)         { return os.Hostname() }
+func Getwd() (string, error)            { return os.Getwd() }
+func UserHomeDir() (string, error)      { return os.UserHomeDir() }
+func UserCacheDir() (string, error)     { return os.UserCacheDir() }
+func Exit(code int)                     { os.Exit(code) }
+func Executable() (string, error)       { return os.Executable() }
+func ExpandEnv(s string) string         { return os.ExpandEnv(s) }
+func DirFS(dir string) fs.FS            { return os.DirFS(dir) }
+
+// the rest of package os, so that any use of it in the store compiles against the seam
+func Readlink(name string) (string, error) {
+	if _, err := gate(Step{Kind: "stat", Path: name}); err != nil {
+		return "", err
+	}
+	return os.Readlink(name)
+}
+
+func Chown(name string, uid, gid int) error {
+	if _, err := gate(Step{Kind: "chown", Path: name, Mutating: true}); err != nil {
+		return err
+	}
+	return os.Chown(name, uid, gid)
+}
+
+func Lchown(name string, uid, gid int) error {
+	if _, err := gate(Step{Kind: "chown", Path: name, Mutating: true}); err != nil {
+		return err
+	}
+	return os.Lchown(name, uid, gid)
+}
+
+func Chdir(dir string) error                        { return os.Chdir(dir) }
+func Clearenv()                                     { os.Clearenv() }
+func Environ() []string                             { return os.Environ() }
+func Expand(s string, m func(string) string) string { return os.Expand(s, m) }
+func FindProcess(pid int) (*os.Process, error)      { return os.FindProcess(pid) }
+func Getegid() int                                  { return os.Getegid() }
+func Geteuid() int                                  { return os.Geteuid() }
+func Getgid() int                                   { return os.Getgid() }
+func Getgroups() ([]int, error)                     { return os.Getgroups() }
+func Getpagesize() int                              { return os.Getpagesize() }
+func Getppid() int                                  { return os.Getppid() }
+func IsPathSeparator(c uint8) bool                  { return os.IsPathSeparator(c) }
+func NewSyscallError(sc string, err error) error    { return os.NewSyscallError(sc, err) }
+func Setenv(k, v string) error                      { return os.Setenv(k, v) }
+func Unsetenv(k string) error                       { return os.Unsetenv(k) }
+func UserConfigDir() (string, error)                { return os.UserConfigDir() }
+func CopyFS(dir string, fsys fs.FS) error           { return os.CopyFS(dir, fsys) }
+func StartProcess(name string, argv []string, attr *os.ProcAttr) (*os.Process, error) {
+	return os.StartProcess(name, argv, attr)
+}
 
 // Errno values for fault injection.
 var (
